@@ -201,7 +201,7 @@ pub fn build(p: CP) -> Scenario<Arc<CS>> {
     };
     Scenario {
         name: p.name.to_string(),
-        opts: Opts { stale_reads: false, stale_depth: 2, max_spurious: 0, horizon: 60_000, log_ops: false, log_handler_ops: false, reduce: true, no_discipline: false, nest_value_t1: 0 },
+        opts: Opts { stale_reads: false, stale_depth: 2, max_spurious: 0, horizon: 60_000, log_ops: false, log_handler_ops: false, reduce: true, no_discipline: false, nest_value_t1: 0, post_points: false },
         signals: vec![S1, S2],
         setup: Box::new(setup),
         threads: vec![m, d],
